@@ -233,6 +233,27 @@ Proof.
   apply F2. left. exists (x, e). split; [apply hget_In; exact Eg | reflexivity].
 Qed.
 
+(** (3) along a whole history: as long as no call names slot [x] as its
+    destination, the slot keeps its edge, and the edge keeps its function of
+    the variables - through operations, collections, reorderings, added
+    variables, with any cache behaviour *)
+Theorem hist_slot_stable : forall ops st st', HInv st -> hops_pre st ops -> hrun st ops = Some st' ->
+  forall x e, (forall o, In o ops -> hdst o <> Some x) ->
+  hget (s_handles (h_s C st)) x = Some e ->
+  hget (s_handles (h_s C st')) x = Some e /\
+  ref_ok (h_s C st') (eref e) /\
+  forall a, bfun_of (h_s C st') (eref e) a = bfun_of (h_s C st) (eref e) a.
+Proof.
+  induction ops as [|o rest IH]; intros st st' I Pre E x e Hx Eg.
+  - simpl in E. inversion E; subst st'. split; [exact Eg|]. split; [|reflexivity].
+    apply (bdd_handle_ok _ (x, e) (hi_bdd C cget st I) (hget_In _ _ _ Eg)).
+  - destruct Pre as [P0 Prest]. simpl in E.
+    destruct (step_ok st o I P0) as [st1 [E1 [I1 _]]]. rewrite E1 in E.
+    destruct (hist_frame_slots st o st1 I P0 E1 x e (Hx o (or_introl eq_refl)) Eg) as [G1 [_ F1]].
+    destruct (IH st1 st' I1 (Prest st1 E1) E x e (fun o' Ho => Hx o' (or_intror Ho)) G1) as [G2 [O2 F2]].
+    split; [exact G2|]. split; [exact O2|]. intros a. rewrite F2. apply F1.
+Qed.
+
 (** the functions inside substitution objects are kept as well *)
 Theorem hist_frame_subst : forall st o st', HInv st -> hop_pre st o -> hstep st o = Some st' ->
   forall id pairs v r, In (id, pairs) (h_reg C st) -> In (v, r) pairs ->
@@ -249,6 +270,22 @@ Proof.
   intros s r a a' H Hag. unfold bfun_of.
   rewrite (semk_ext_lt s H _ r (choice_of s a) (choice_of s a')); [reflexivity|].
   intros l Hl. unfold choice_of. destruct (vl_spec s H l Hl) as [E [_ Hv]]. rewrite E, (Hag _ Hv). reflexivity.
+Qed.
+
+(** (3) C16 along a whole history: however many variables are added meanwhile
+    (and whatever else happens), an existing handle denotes the function it
+    denoted, which reads only the variables that existed then *)
+Theorem hist_handle_function_fixed : forall ops st st', HInv st -> hops_pre st ops -> hrun st ops = Some st' ->
+  forall x e, (forall o, In o ops -> hdst o <> Some x) ->
+  hget (s_handles (h_s C st)) x = Some e ->
+  hget (s_handles (h_s C st')) x = Some e /\
+  forall a a', (forall v, v < nlevels (h_s C st) -> a v = a' v) ->
+    bfun_of (h_s C st') (eref e) a = bfun_of (h_s C st) (eref e) a'.
+Proof.
+  intros ops st st' I Pre E x e Hx Eg.
+  destruct (hist_slot_stable ops st st' I Pre E x e Hx Eg) as [G [_ F]].
+  split; [exact G|]. intros a a' Hag. rewrite F.
+  apply (bfun_of_local _ _ a a' (bo_wf _ (hi_bdd C cget st I)) Hag).
 Qed.
 
 (** (3) C16: [add_vars] changes no node, no slot, and every function of the
